@@ -12,7 +12,11 @@ META = {
                   "stored value from every reachable state); entries only grow; lock accounting; deadlock freedom. "
                   "The model is tied to cache.go by driving the real cache (directly and through the Cache() builtin) "
                   "from 2-16 goroutines over 1-3 keys with failing/succeeding callables, checking direct oracles on "
-                  "every history and replaying every history through the model inside Coq.",
+                  "every history and replaying every history through the model inside Coq.  Keys and values are opaque "
+                  "in the model; the harness shows the code treats them so: the callables' results range over 22 "
+                  "Starlark value classes (None, False, 0, '', (), fresh []/{}, frozen list, set, NaN, function, ...), "
+                  "the keys over 7 styles (empty, NUL, case, 4 KiB prefix, label-like, UTF-8 forms, number-like), the "
+                  "callable over Go builtin / def / lambda / def without return, failing by error, fail() or nil.",
     "level_note": "Trusted: Coq kernel; sync.RWMutex is modelled as (readers, writer) with RLock enabled iff no writer "
                   "and Lock iff no writer and no readers (a superset of Go's behaviours); the Go scheduler only "
                   "produces some interleavings, the theorems cover all of them for the model; re-entrant callables "
@@ -125,7 +129,9 @@ def run(ctx):
             scen[int(f[1])] = f
     ids = sorted(scen)
     cases = []
-    dist = {"goroutines": {}, "keys": {}, "failing_callables": {}, "mode": {}, "invocations_observed": {}}
+    dist = {"goroutines": {}, "keys": {}, "failing_callables": {}, "mode": {}, "invocations_observed": {},
+            "value_kind_of_planned_calls": {}, "key_style": {}, "callable_shape_of_planned_calls": {},
+            "value_kind_of_successful_invocations_with_a_later_or_racing_call": {}}
     distinct = set()
     raced_total = 0
     raced_scen = 0
@@ -149,6 +155,23 @@ def run(ctx):
         bump(dist["failing_callables"], "0" if nf == 0 else "all" if nf == sum(len(g) for g in plan) else "some")
         bump(dist["mode"], f[2])
         bump(dist["invocations_observed"], min(sum(1 for e in events if e[0] == "e"), 8))
+        kinds = f[10].split(",") if len(f) > 10 else []
+        for kd in kinds:
+            bump(dist["value_kind_of_planned_calls"], kd)
+        bump(dist["key_style"], f[11] if len(f) > 11 else "?")
+        for sh in (f[12].split(",") if len(f) > 12 else []):
+            bump(dist["callable_shape_of_planned_calls"], sh)
+        # a successful invocation only tests "stored and found again" if somebody asks for the key afterwards
+        flat = [(g, ci) for g, cs in enumerate(plan) for ci in range(len(cs))]
+        kind_of = {gc: kinds[j] for j, gc in enumerate(flat)} if len(kinds) == len(flat) else {}
+        seen_calls = {}
+        cur = {}
+        for j, (kind, g, k, v) in enumerate(events):
+            if kind == "c":
+                cur[g] = seen_calls.get(g, 0)
+                seen_calls[g] = cur[g] + 1
+            elif kind == "e" and v >= 0 and any(e2[0] == "r" and e2[2] == k and e2[1] != g for e2 in events[j + 1:]):
+                bump(dist["value_kind_of_successful_invocations_with_a_later_or_racing_call"], kind_of.get((g, cur.get(g)), "?"))
         r = raced(events)
         raced_total += r
         if r:
@@ -159,10 +182,12 @@ def run(ctx):
 
     ctx.coverage["evaluations"] = len(cases)
     ctx.coverage["distinct_nontrivial"] = len(distinct)
-    ctx.coverage["rule"] = ("%d seeded scenarios (12 enumerated boundary plans + random plans: 2-16 goroutines, 1-3 keys, "
-                            "1-3 sequential calls each, failure probability in {0,.3,.6,.9,1}, seeded Gosched/microsecond "
-                            "sleeps before the call and inside the callable), alternately on a directly constructed cache "
-                            "and through Cache()/.once via starlark.Call; non-trivial = at least one call on a key was in "
+    ctx.coverage["rule"] = ("%d seeded scenarios (12 enumerated boundary plans + one enumerated plan per value class, per key "
+                            "style and per way of failing, each in both modes + random plans: 2-16 goroutines, 1-3 keys, "
+                            "1-3 sequential calls each, failure probability in {0,.3,.6,.9,1}, values plain ints / one value "
+                            "class / a class per call, key style plain or random, callable shapes builtin or mixed, seeded "
+                            "Gosched/microsecond sleeps before the call and inside the callable), alternately on a directly "
+                            "constructed cache and through Cache()/.once via starlark.Call; non-trivial = at least one call on a key was in "
                             "flight while another goroutine's callable for that key completed; distinct by (plan, history)"
                             % len(cases))
     ctx.coverage["exhaustive"] = False
@@ -176,6 +201,12 @@ def run(ctx):
                       {"oracle": f[1], "scenario": sid, "detail": f[3:] if len(f) > 3 else [],
                        "mode": s[2] if s else None, "plan": s[5] if s else None, "history": s[6] if s else None,
                        "final_entries": s[7] if s else None,
+                       "keys": s[8] if s and len(s) > 8 else None,
+                       "input": s[9] if s and len(s) > 9 else None,
+                       "key_style": s[11] if s and len(s) > 11 else None,
+                       "value_code": "values in plan/history are codes: kind*1000000+payload; kinds in order: int(=payload) "
+                                     "None False True int0 negint bigint float0 float nan str_empty str bytes_empty "
+                                     "tuple_empty tuple list_empty list list_frozen dict_empty dict set_empty function",
                        "how": "VERIF_SEED=%d, scenario id %d of harness/overlay/root/zz_verif_c20_test.go "
                               "(plan: per goroutine key:value|f; history: c=call b/e=callable begin/end r=return)"
                               % (ctx.seed, sid)})
